@@ -531,9 +531,6 @@ func (c *vacCase) run() {
 		c.fail(fmt.Sprintf("a row written after vacuum is not visible to a fresh reader: %q %v", fr, err))
 		return
 	}
-	// The crash and fault runs below use connections without a node cache: with one, a failed flush leaves
-	// the connection on nodes that were never stored (F56, dependency), which is not what these runs are about.
-	c.cache = 0
 	// every crash point inside vacuum, from the same starting bucket
 	if total <= 40 {
 		for k := 0; k <= total && !c.failed; k++ {
